@@ -762,6 +762,7 @@ func checkGlobs(c *Ctx, r *Report) {
 		var sites []string
 		// the Globs field of the result: phi(default literal, ControllerGlobs) guarded by len(ControllerGlobs) > 0
 		found := false
+		fedFromConfig := false
 		allInstrs(fi.SSA, false, func(_ *ssa.Function, _ *ssa.BasicBlock, _ int, ins ssa.Instruction) {
 			st, ok := ins.(*ssa.Store)
 			if !ok {
@@ -777,8 +778,11 @@ func checkGlobs(c *Ctx, r *Report) {
 			found = true
 			sites = append(sites, w.pos(st.Pos()))
 			a := sliceOf(st.Val)
-			if !a.hasFieldNamed("ControllerGlobs") {
-				viol = fmt.Sprintf("%s: PackageFacadeConfig.Globs is not fed from commonConfig.controllerGlobs", w.pos(st.Pos()))
+			if a.hasFieldNamed("ControllerGlobs") {
+				fedFromConfig = true
+			} else if len(a.Fields) > 0 || len(a.Calls) > 0 || len(a.Params) > 0 {
+				// (a store of the literal defaults, overwritten under the length test, is fine)
+				viol = fmt.Sprintf("%s: PackageFacadeConfig.Globs is set from something that is neither commonConfig.controllerGlobs nor the literal defaults", w.pos(st.Pos()))
 			}
 			for _, e := range phiLeaves(st.Val) {
 				ea := sliceOf(e)
@@ -789,6 +793,8 @@ func checkGlobs(c *Ctx, r *Report) {
 		})
 		if !found {
 			viol = "no store to PackageFacadeConfig.Globs found"
+		} else if !fedFromConfig && viol == "" {
+			viol = "PackageFacadeConfig.Globs is not fed from commonConfig.controllerGlobs"
 		}
 		r.add("C20.d", "fieldflow", napc+":Globs", "the globs handed to the package facade are commonConfig.controllerGlobs (defaults only when none are configured)", []string{napc}, sites, viol)
 		ruleGuarded(c, r, "C20.d", napc, "default-globs-only-when-empty",
@@ -807,6 +813,14 @@ func checkGlobs(c *Ctx, r *Report) {
 						for _, r2 := range *u.Referrers() {
 							if _, isPhi := r2.(*ssa.Phi); isPhi {
 								return true
+							}
+							// ... or is stored straight into the Globs field
+							if st, isSt := r2.(*ssa.Store); isSt {
+								if ga, ok := st.Addr.(*ssa.FieldAddr); ok {
+									if gf := structFieldVar(ga.X.Type(), ga.Field); gf != nil && gf.Name() == "Globs" {
+										return true
+									}
+								}
 							}
 						}
 					}
@@ -1099,8 +1113,9 @@ func checkGlobSources(c *Ctx, r *Report, clause string, fi *FuncInfo, matched ss
 				if !ok || calleeName(cl) != "builtin.append" {
 					return
 				}
-				// appends of strings (file names) only
-				if sl, ok := cl.Type().Underlying().(*types.Slice); !ok || !types.Identical(sl.Elem(), types.Typ[types.String]) {
+				// appends of what the iteration over the map of known files yields (a file name, the
+				// file, or a pair of both) - not the later re-ordering of what was selected
+				if len(cl.Call.Args) < 2 || !dependsOnMapRangeOf(cl.Call.Args[1], "files", 0, map[ssa.Value]bool{}) {
 					return
 				}
 				nApp++
@@ -1354,4 +1369,37 @@ func checkConfigDecodedIntoZero(c *Ctx, r *Report, clause string) {
 		sites = []string{w.pos(fi.Decl.Pos())}
 	}
 	r.add(clause, "guardedby", "cmd.LoadGleeceConfig:decoded-into-zero-value", "the configuration file is decoded into a zero GleeceConfig, so `required` means: written in the file", []string{fi.Key}, sites, viol)
+}
+
+// dependsOnMapRangeOf: v is computed from the key/value a `range` over the map held in struct
+// field `field` yields.
+func dependsOnMapRangeOf(v ssa.Value, field string, depth int, seen map[ssa.Value]bool) bool {
+	if v == nil || seen[v] || depth > 12 {
+		return false
+	}
+	seen[v] = true
+	switch x := v.(type) {
+	case *ssa.Next:
+		if rg, ok := x.Iter.(*ssa.Range); ok {
+			return sliceOf(rg.X).hasFieldNamed(field)
+		}
+		return false
+	case *ssa.Alloc:
+		for _, sv := range storedInto(x, 0) {
+			if dependsOnMapRangeOf(sv, field, depth+1, seen) {
+				return true
+			}
+		}
+		return false
+	case *ssa.Call, *ssa.Lookup, *ssa.Parameter, *ssa.Global, *ssa.Const, *ssa.FreeVar:
+		return false
+	}
+	if ins, ok := v.(ssa.Instruction); ok {
+		for _, op := range ins.Operands(nil) {
+			if *op != nil && dependsOnMapRangeOf(*op, field, depth+1, seen) {
+				return true
+			}
+		}
+	}
+	return false
 }
